@@ -90,7 +90,9 @@ func (b *BloomSearchEngine) flushWorker() {
 			select {
 			case <-b.ctx.Done():
 				shuttingDown = true
+				verifPoint("flusher.shutdown", 0, 0, nil)
 			case flushReq := <-b.flushChan:
+				verifPoint("flusher.recv", int64(len(flushReq.partitionBuffers)), int64(len(flushReq.doneChans)), &flushReq)
 				b.handleFlush(b.flushCtx, flushReq)
 			}
 			continue
@@ -98,15 +100,19 @@ func (b *BloomSearchEngine) flushWorker() {
 
 		select {
 		case flushReq := <-b.flushChan:
+			verifPoint("flusher.recv", int64(len(flushReq.partitionBuffers)), int64(len(flushReq.doneChans)), &flushReq)
 			b.handleFlush(b.flushCtx, flushReq)
 		case <-b.ingestDone:
+			verifPoint("flusher.ingestdone", 0, 0, nil)
 			// The ingest worker has exited, so every flush request it will
 			// ever produce is already in the channel; drain them all.
 			for {
 				select {
 				case flushReq := <-b.flushChan:
+					verifPoint("flusher.recv", int64(len(flushReq.partitionBuffers)), int64(len(flushReq.doneChans)), &flushReq)
 					b.handleFlush(b.flushCtx, flushReq)
 				default:
+					verifPoint("flusher.exit", 0, 0, nil)
 					b.logger.Debug("flush worker stopped")
 					return
 				}
@@ -142,6 +148,7 @@ func (b *BloomSearchEngine) handleFlush(ctx context.Context, flushReq flushReque
 	// every waiter instead (best effort — ctx is already canceled, so only
 	// ready channels receive it).
 	if err := ctx.Err(); err != nil {
+		verifPoint("flush.abandoned", int64(len(flushReq.partitionBuffers)), int64(len(flushReq.doneChans)), &flushReq)
 		b.logger.Warn("flush abandoned: shutdown deadline expired before the flush could run",
 			"partitions", len(flushReq.partitionBuffers), "waiters", len(flushReq.doneChans))
 		sendToChannelsWithContext(ctx, flushReq.doneChans, fmt.Errorf("flush abandoned: %w", err))
@@ -149,6 +156,7 @@ func (b *BloomSearchEngine) handleFlush(ctx context.Context, flushReq flushReque
 	}
 
 	if len(flushReq.partitionBuffers) == 0 {
+		verifPoint("flush.ackonly", 0, int64(len(flushReq.doneChans)), &flushReq)
 		sendToChannelsWithContext(ctx, flushReq.doneChans, nil)
 		return
 	}
@@ -278,5 +286,6 @@ func (b *BloomSearchEngine) handleFlush(ctx context.Context, flushReq flushReque
 		return
 	}
 
+	verifPoint("flush.committed", int64(len(flushReq.partitionBuffers)), int64(len(flushReq.doneChans)), &flushReq)
 	sendToChannelsWithContext(ctx, flushReq.doneChans, nil)
 }
